@@ -94,6 +94,21 @@ def run_corpus(prop, rep):
         else:
             rep.extra.setdefault("mutants_detected", []).append("%s -> %s" % (name, expect))
     rep.extra["mutants_run"] = n
+    # every parameter and local of every function renamed (done on the facts, which is what a source-level rename
+    # gives the extractor): names are not part of the meaning, the check must stay silent
+    env = dict(os.environ, VERIF_RENAME_LOCALS="1", VERIF_TIER="quick")
+    d = tempfile.mkdtemp(prefix="verif-rn-")
+    try:
+        env["VERIF_EVIDENCE_DIR"] = d + "/evidence"
+        env["VERIF_REPLAY_DIR"] = d + "/replay"
+        r = subprocess.run([os.path.join(VERIF, "check"), prop, "--tier", "quick"], env=env,
+                           stdout=subprocess.PIPE, stderr=subprocess.STDOUT, universal_newlines=True)
+        if r.returncode != 0:
+            rep.broke("renaming every local and parameter raises an alarm (exit %d): %s" % (r.returncode, r.stdout[-400:]))
+        else:
+            rep.extra["rename_all_locals_silent"] = True
+    finally:
+        shutil.rmtree(d, ignore_errors=True)
     return n
 
 
